@@ -85,9 +85,56 @@ theorem cos_sin_values_real (a : Angle ℝ) :
   have := Real.sin_sq_add_cos_sq (T a)
   linarith
 
+/-- (E) `tan` is total wherever the cosine is non-zero, has magnitude `|tan T|`, odd grade, and remainder 0 -/
+theorem tan_real {a : Angle ℝ} (ha : a.Inv) (hc : Real.cos (T a) ≠ 0) :
+    ∃ t, Geonum.tan a = some t ∧ t.mag = |Real.tan (T a)| ∧ t.angle.blade % 2 = 1 ∧ t.angle.rem = 0 := by
+  obtain ⟨hcm, hsm, _⟩ := cos_sin_values_real a
+  obtain ⟨hcb, hcr, hsb, hsr, _⟩ := cos_sin_lattice (F := ℝ) ha
+  simp only [val_id] at hcr hsr
+  have hcinv : (Geonum.cos a).angle.Inv := by
+    refine ⟨trivial, by rw [val_id, hcr], ?_⟩
+    rw [val_id, hcr, zero_add]
+    have h1 := val_e10_small (F := ℝ); have h2 := val_qp_gt (F := ℝ)
+    have : (1:ℝ) / 10 ^ 9 ≤ 1 := by rw [div_le_one (by positivity)]; norm_num
+    linarith
+  have hsinv : (Geonum.sin a).angle.Inv := by
+    refine ⟨trivial, by rw [val_id, hsr], ?_⟩
+    rw [val_id, hsr, zero_add]
+    have h1 := val_e10_small (F := ℝ); have h2 := val_qp_gt (F := ℝ)
+    have : (1:ℝ) / 10 ^ 9 ≤ 1 := by rw [div_le_one (by positivity)]; norm_num
+    linarith
+  have hne : feq (Geonum.cos a).mag (zero : ℝ) = false := by
+    rw [r_eq, lit_real.1, hcm]; simpa using hc
+  have hn := negate_spec hcinv
+  simp only [val_id] at hn
+  have hw := add_whole (F := ℝ) (a := (Geonum.sin a).angle) (z := (Geonum.cos a).angle.negate) hsinv trivial
+    (by rw [val_id, hn.2.2, hcr])
+  simp only [val_id] at hw
+  refine ⟨⟨fmul (Geonum.sin a).mag (fdiv one (Geonum.cos a).mag), (Geonum.sin a).angle.geometricAdd (Geonum.cos a).angle.negate⟩, ?_, ?_, ?_, ?_⟩
+  · show (Geonum.cos a).inv.map _ = _
+    unfold Geonum.inv; simp [hne, Geonum.mul, Angle.add, Angle.addVV]
+  · show (Geonum.sin a).mag * ((one : ℝ) / (Geonum.cos a).mag) = _
+    rw [hsm, hcm, lit_real.2.1, Real.tan_eq_sin_div_cos, abs_div]; ring
+  · show ((Geonum.sin a).angle.geometricAdd (Geonum.cos a).angle.negate).blade % 2 = 1
+    rw [hw.1, hn.1]; rcases hsb with h | h <;> rcases hcb with g | g <;> rw [h, g]
+  · show ((Geonum.sin a).angle.geometricAdd (Geonum.cos a).angle.negate).rem = 0
+    rw [hw.2.2, hsr]
+
+/-- (E) `tan` has period π: a half turn more gives the same magnitude -/
+theorem tan_period_real {a : Angle ℝ} (ha : a.Inv) (hc : Real.cos (T a) ≠ 0) :
+    ∃ t t', Geonum.tan a = some t ∧ Geonum.tan a.negate = some t' ∧ t'.mag = t.mag := by
+  have hn := negate_spec ha
+  have hninv : a.negate.Inv := inv_of_spec ha hn.2
+  have hT : T a.negate = T a + Real.pi := negate_total_real ha
+  have hc' : Real.cos (T a.negate) ≠ 0 := by rw [hT, Real.cos_add_pi]; simpa using hc
+  obtain ⟨t, ht, hm, _, _⟩ := tan_real ha hc
+  obtain ⟨t', ht', hm', _, _⟩ := tan_real hninv hc'
+  exact ⟨t, t', ht, ht', by rw [hm', hm, hT, Real.tan_add_pi]⟩
+
 end E
 
-/-! PARTIAL (not yet proved): |tan t| and period π, odd grade of tan, adj/opp as Cartesian components. Explored by `oracle.C15.*`. -/
+/-! PARTIAL (not yet proved): adj/opp as the signed Cartesian components and adj² + opp² = |g|² (they follow from `cos_sin_values_real`
+    and the scale sign law C05.scale_spec).  Explored by `oracle.C15.adj`. -/
 
 example {F : Type} [FloatSpec F] : (⟨zero, 7⟩ : Angle F).Inv := inv_zero 7
 
